@@ -37,6 +37,7 @@ type caseA struct {
 	Filter  map[string]bool `json:"filter"` // nil = no filter file
 	Clients int             `json:"clients"`
 	Ops     []op            `json:"ops"`
+	Status  int             `json:"receiver_status,omitempty"` // what the receiver answers a notification with (0 = 200): any 2xx acknowledges it
 }
 
 type record struct {
@@ -61,6 +62,8 @@ var (
 	received []record
 	garbage  []string
 	lastAt   time.Time
+	// recvStatus: the status the receiver answers with (guarded by recvMu; set per case)
+	recvStatus int
 )
 
 func receiver() string {
@@ -78,6 +81,9 @@ func receiver() string {
 			}
 			recvMu.Lock()
 			defer recvMu.Unlock()
+			if recvStatus != 0 {
+				w.WriteHeader(recvStatus)
+			}
 			lastAt = time.Now()
 			if err := json.Unmarshal(b, &doc); err != nil {
 				garbage = append(garbage, string(b))
@@ -129,6 +135,9 @@ type stats struct {
 
 func execA(c caseA) (st stats, err error) {
 	url := receiver()
+	recvMu.Lock()
+	recvStatus = c.Status
+	recvMu.Unlock()
 	sb, err := gw.NewSandbox("c19")
 	if err != nil {
 		return st, fmt.Errorf("SETUP: %v", err)
@@ -475,6 +484,7 @@ func TestC19A(t *testing.T) {
 			}
 		}
 		c.Clients = rapid.SampledFrom([]int{1, 2, 4, 8, 16}).Draw(t, "clients")
+		c.Status = rapid.SampledFrom([]int{0, 0, 200, 204, 202, 201}).Draw(t, "receiver_status")
 		maxOps := 40
 		if thorough {
 			maxOps = 200
